@@ -1,0 +1,46 @@
+//go:build verif
+
+package expectations
+
+import (
+	"time"
+
+	"k8s.io/apimachinery/pkg/util/sets"
+)
+
+// VerifRecord is the snapshot form of one controller key's expectations.
+type VerifRecord struct {
+	Objs             map[Action][]string
+	FirstUnsatisfied time.Time
+}
+
+// VerifSnapshot copies the process-global resource expectations (verification harness only).
+func VerifSnapshot() map[string]VerifRecord {
+	r := ResourceExpectations.(*realResourceExpectations)
+	r.Lock()
+	defer r.Unlock()
+	out := make(map[string]VerifRecord, len(r.controllerCache))
+	for k, e := range r.controllerCache {
+		rec := VerifRecord{Objs: map[Action][]string{}, FirstUnsatisfied: e.firstUnsatisfiedTimestamp}
+		for a, s := range e.objsCache {
+			rec.Objs[a] = s.List()
+		}
+		out[k] = rec
+	}
+	return out
+}
+
+// VerifRestore replaces the process-global resource expectations with a snapshot.
+func VerifRestore(s map[string]VerifRecord) {
+	r := ResourceExpectations.(*realResourceExpectations)
+	r.Lock()
+	defer r.Unlock()
+	r.controllerCache = make(map[string]*realControllerResourceExpectations, len(s))
+	for k, rec := range s {
+		e := &realControllerResourceExpectations{objsCache: map[Action]sets.String{}, firstUnsatisfiedTimestamp: rec.FirstUnsatisfied}
+		for a, l := range rec.Objs {
+			e.objsCache[a] = sets.NewString(l...)
+		}
+		r.controllerCache[k] = e
+	}
+}
